@@ -3,6 +3,8 @@ package main
 
 import (
 	"fmt"
+	"os"
+	"runtime/pprof"
 	"strings"
 
 	"github.com/lyraproj/pcore/pcore"
@@ -107,6 +109,7 @@ type runner struct {
 	res   *lib.Result
 	c     px.Context
 	total int
+	nviol int
 }
 
 func (r *runner) check(ops []opT, cf *lib.CasesFile, toCoq bool, family string) {
@@ -122,7 +125,8 @@ func (r *runner) check(ops []opT, cf *lib.CasesFile, toCoq bool, family string) 
 	if bad >= 0 {
 		clause := clauseOf(ops[bad], hc.outs[bad])
 		small := ops[:bad+1]
-		if len(r.res.Violations) < 8 {
+		r.nviol++
+		if r.nviol <= 8 {
 			small = shrink(r.c, small, clause)
 		}
 		shc, sbad, swant := runHistory(r.c, small)
@@ -133,7 +137,7 @@ func (r *runner) check(ops []opT, cf *lib.CasesFile, toCoq bool, family string) 
 			What: fmt.Sprintf("step %d %s returned %s, the specification says %s (history: %s)", sbad, small[sbad], shc.outs[sbad], swant,
 				strings.Join(opsText(small), "; ")),
 			Input: input(small)})
-		if len(r.res.Violations) <= 20 {
+		if r.nviol <= 20 {
 			cf.Add(hcase{small, shc.outs[:len(small)]}.gallina(), input(small))
 		}
 	}
@@ -153,6 +157,11 @@ func main() {
 		"non-trivial when it contains a redefinition (rejected, or an equal-value no-op) or a lookup that misses and later succeeds " +
 		"through the same loader; distinct = distinct operation sequences"
 	rng := lib.NewRng(cfg.Seed)
+	if pf := os.Getenv("C12_PROF"); pf != "" {
+		f, _ := os.Create(pf)
+		_ = pprof.StartCPUProfile(f)
+		defer pprof.StopCPUProfile()
+	}
 	pcore.Do(func(c px.Context) {
 		setupUniverse(c)
 		r := &runner{cfg: cfg, res: res, c: c}
